@@ -166,7 +166,9 @@ def main(argv):
             else:
                 violations.append({'unit': unit, 'engine': 'verus', **ob})
         # samples: names of a few discharged functions
-        for fn, t in list(res.get('fn_times', {}).items())[:400]:
+        tagged = set(f['fn'].split('::')[-1] for f in (meta['functions'] if meta else []) if prop in f['props'])
+        ordered = sorted(list(res.get('fn_times', {}).items())[:600], key=lambda kv: 0 if kv[0].split('::')[-1] in tagged else 1)
+        for fn, t in ordered:
             if t.get('ok') and len(samples) < 12 and '::' in fn and not fn.startswith('vstd'):
                 samples.append({'obligation': f'{unit}: {fn} satisfies its contract and is panic-free', 'backend': 'verus/z3', 'ms': t['ms']})
     kani_ev = None
